@@ -619,6 +619,14 @@ class ShapeInterp:
             return [(bool(v_.items if isinstance(v_, Fixed) else v_.slots), {**env, test.id: v_}) for v_ in env[test.id].vals]
         if isinstance(test, ast.Constant) and isinstance(test.value, bool):
             return [(test.value, env)]
+        graphs = [k for k, v_ in env.items() if isinstance(v_, Graph)]
+        if graphs:
+            from .rules.common import empty_graph_tests
+            if any(norm(test) in empty_graph_tests(g) for g in graphs):
+                # the shapes are claimed for molecules with at least one atom (the atoms of the graph are the symbols the
+                # interpretation runs on); the branch for the molecule without atoms is outside that claim
+                self.notes.append(f"{fi.loc(test)}: `{short(test)}`: branch for the molecule without atoms not interpreted")
+                return [(False, env)]
         if isinstance(test, ast.BoolOp):
             # left to right, later operands only on the paths that reach them
             is_and = isinstance(test.op, ast.And)
